@@ -19,8 +19,9 @@ func init() { runners["C05"] = runC05 }
 // Every file is written in a byte layout of its own drawn from lr (layout.go: how the file begins, what stands between
 // two directives, how it ends — also without a final newline, after a directive of any kind, an include among them —
 // and whether its includes stand where they were drawn, all at the end or all at the beginning); lr == nil: a blank
-// line after every directive. The third result describes the layouts for the recorded input.
-func c05WriteTree(r, lr *RNG, dir string, j *Journal, order []int) (string, string, string) {
+// line after every directive. The third result describes the layouts for the recorded input. raw (stream `reject`): the
+// text written for some directives instead of the generator's own.
+func c05WriteTree(r, lr *RNG, dir string, j *Journal, order []int, raw map[int]string) (string, string, string) {
 	os.MkdirAll(dir, 0o755)
 	nfiles := r.Range(1, 5)
 	if len(order) < nfiles {
@@ -45,7 +46,7 @@ func c05WriteTree(r, lr *RNG, dir string, j *Journal, order []int) (string, stri
 	type file struct {
 		rel    string
 		parent int
-		dirs   []JDir
+		dirs   []int
 	}
 	files := []*file{{rel: "main.knut", parent: -1}}
 	for k := 1; k < nfiles; k++ {
@@ -54,7 +55,7 @@ func c05WriteTree(r, lr *RNG, dir string, j *Journal, order []int) (string, stri
 	}
 	for _, idx := range order {
 		f := files[r.Intn(nfiles)]
-		f.dirs = append(f.dirs, j.Dirs[idx])
+		f.dirs = append(f.dirs, idx)
 	}
 	shape := fmt.Sprintf("files%d", nfiles)
 	if odd && nfiles > 1 {
@@ -91,7 +92,7 @@ func c05WriteTree(r, lr *RNG, dir string, j *Journal, order []int) (string, stri
 				}
 			}
 			if i < len(f.dirs) {
-				items = append(items, layDir(f.dirs[i]))
+				items = append(items, c05Item(j, f.dirs[i], raw))
 			}
 		}
 		lay := layCanon(len(items))
@@ -217,6 +218,7 @@ func runC05(c *Ctx) {
 		vars   []*c05Variant
 		tags   []string
 		sweep  []*c05Sweep
+		raw    map[int]string // stream reject: directive index -> the text written instead of the generator's (a directive the model conversion rejects)
 	}
 	var cases []*cs
 	// stream `layout`: journals of the lifecycle generator (mostly valid). Stream `order`: journals whose verdict hangs on
@@ -227,7 +229,7 @@ func runC05(c *Ctx) {
 	streams := []struct {
 		name    string
 		n, nvar int
-	}{{"layout", c.N(500, 4000), c.N(5, 10)}, {"order", c.N(200, 2500), c.N(6, 10)}, {"prices", c.N(120, 2500), c.N(6, 10)}}
+	}{{"layout", c.N(500, 4000), c.N(5, 10)}, {"order", c.N(200, 2500), c.N(6, 10)}, {"prices", c.N(120, 2500), c.N(6, 10)}, {"reject", c.N(100, 2500), c.N(7, 10)}}
 	for _, st := range streams {
 		stream, nvar := st.name, st.nvar
 		for i := 0; i < st.n; i++ {
@@ -239,7 +241,16 @@ func runC05(c *Ctx) {
 			var tags []string
 			var f BalFlags
 			kind := ""
-			if stream == "order" {
+			var raw map[int]string
+			bad := -1
+			if stream == "reject" {
+				var val string
+				j, kind, val, bad, raw, tags = c05GenReject(r)
+				f = GenBalFlags(r, j, val, BalGenOpts{Valued: true})
+				if r.Chance(1, 2) {
+					f.To = 0
+				}
+			} else if stream == "order" {
 				j, kind, tags = c05GenOrder(r)
 				f = GenBalFlags(r, j, "", BalGenOpts{})
 				if r.Chance(1, 2) {
@@ -283,7 +294,7 @@ func runC05(c *Ctx) {
 					f.To = 0 // the report end then comes from the journal period
 				}
 			}
-			k := &cs{stream: stream, kind: kind, idx: i, j: j, f: f, tags: tags}
+			k := &cs{stream: stream, kind: kind, idx: i, j: j, f: f, tags: tags, raw: raw}
 			for v := 0; v < nvar; v++ {
 				order := make([]int, len(j.Dirs))
 				for q := range order {
@@ -291,6 +302,30 @@ func runC05(c *Ctx) {
 				}
 				switch {
 				case v == 0: // the original order in a single file
+				case stream == "reject" && bad >= 0 && v >= 1 && v <= 5:
+					// the directive the conversion rejects as the first (v = 1, 3) or the last (v = 2, 4) directive of the file that holds
+					// it - a single file, or whichever file of an include tree it falls into - the others in their order or (v = 4) shuffled;
+					// v = 5: directly behind one other directive
+					var rest []int
+					for _, q := range order {
+						if q != bad {
+							rest = append(rest, q)
+						}
+					}
+					if v == 4 {
+						for q := len(rest) - 1; q > 0; q-- {
+							w := r.Intn(q + 1)
+							rest[q], rest[w] = rest[w], rest[q]
+						}
+					}
+					switch {
+					case v == 1 || v == 3:
+						order = append([]int{bad}, rest...)
+					case v == 5 && len(rest) > 0:
+						order = append([]int{rest[0], bad}, rest[1:]...)
+					default:
+						order = append(rest, bad)
+					}
 				case v == 1: // newest first (reverse chronological)
 					for a, b := 0, len(order)-1; a < b; a, b = a+1, b-1 {
 						order[a], order[b] = order[b], order[a]
@@ -334,16 +369,12 @@ func runC05(c *Ctx) {
 				// the byte layout of the variant's files has a generator of its own (the directive orders and tree shapes of a
 				// case do not move when the layout tables change); the original, variant 0, keeps the printed layout
 				lr := c.Rng(stream+"/bytes", i*64+v)
-				if (v <= 2 && (v == 0 || r.Chance(1, 2))) || (v == 3 && stream == "order") || ((v == 3 || v == 4) && stream == "prices") {
-					jj := &Journal{}
-					for _, q := range order {
-						jj.Dirs = append(jj.Dirs, j.Dirs[q])
-					}
-					text, _ := jj.Text()
+				if (v <= 2 && (v == 0 || stream == "reject" || r.Chance(1, 2))) || (v == 3 && stream == "order") || ((v == 3 || v == 4) && stream == "prices") {
+					text := c05Text(j, order, raw)
 					if v > 0 {
 						var items []layItem
-						for _, d := range jj.Dirs {
-							items = append(items, layDir(d))
+						for _, q := range order {
+							items = append(items, c05Item(j, q, raw))
 						}
 						lay := layDraw(lr, len(items))
 						text, vr.Layout = lay.render(items), "main.knut: "+lay.field()
@@ -353,9 +384,36 @@ func runC05(c *Ctx) {
 					os.WriteFile(vr.Root, []byte(text), 0o644)
 					vr.Shape = "single"
 				} else {
-					vr.Root, vr.Shape, vr.Layout = c05WriteTree(r, lr, dir, j, order)
+					vr.Root, vr.Shape, vr.Layout = c05WriteTree(r, lr, dir, j, order, raw)
 				}
 				k.vars = append(k.vars, vr)
+			}
+			if stream == "reject" && bad >= 0 {
+				// the rejected directive at further places of one file (the others in their order), judged by the real loader
+				// in-process; sweep[0] is the original order
+				n := len(j.Dirs)
+				at := []int{-1, 0, n - 1, 1, n - 2}
+				for q := c.N(3, 8); q > 0; q-- {
+					at = append(at, r.Intn(n))
+				}
+				seen := map[int]bool{}
+				for _, p := range at {
+					if p < -1 || p >= n || seen[p] {
+						continue
+					}
+					seen[p] = true
+					sw := &c05Sweep{}
+					for q := 0; q < n; q++ {
+						if p >= 0 && q == bad {
+							continue
+						}
+						sw.Order = append(sw.Order, q)
+					}
+					if p >= 0 {
+						sw.Order = append(sw.Order[:p:p], append([]int{bad}, sw.Order[p:]...)...)
+					}
+					k.sweep = append(k.sweep, sw)
+				}
 			}
 			if stream == "order" {
 				// further orders of the same directives in one file, judged by the real loader and checker in-process (no report, so
@@ -418,7 +476,7 @@ func runC05(c *Ctx) {
 		dir := filepath.Join(base, fmt.Sprintf("%s%d/sweep", k.stream, k.idx))
 		os.MkdirAll(dir, 0o755)
 		for si, sw := range k.sweep {
-			sw.Text = c05Permuted(k.j, sw.Order)
+			sw.Text = c05Text(k.j, sw.Order, k.raw)
 			p := filepath.Join(dir, fmt.Sprintf("s%d.knut", si))
 			os.WriteFile(p, []byte(sw.Text), 0o644)
 			sw.Verdict, _, sw.Msg = implCheck(p, nil)
@@ -430,7 +488,7 @@ func runC05(c *Ctx) {
 	for _, k := range cases {
 		k := k
 		c.Evals++
-		text, _ := k.j.Text()
+		text := c05Text(k.j, nil, k.raw)
 		for _, t := range k.tags {
 			c.Tag(t)
 		}
@@ -461,13 +519,21 @@ func runC05(c *Ctx) {
 			in := map[string]any{"journal": text, "variant": vi, "order": vr.Order, "shape": vr.Shape, "layout": vr.Layout, "fs": vr.FS}
 			bt.Add(func(model string) {
 				c.Compare(k.stream, k.idx, "journal-of", in, c05CanonDump(vr.Dump), c05CanonDump(model))
+				if k.stream == "reject" && model == "error" {
+					// the model conversion rejects a directive of the journal: so does every command, wherever the directive stands
+					impl := "error"
+					if vr.Check == 0 || vr.BalC == 0 || vr.PrC == 0 {
+						impl = fmt.Sprintf("accepted: exit codes check/balance/print %d/%d/%d", vr.Check, vr.BalC, vr.PrC)
+					}
+					c.Compare(k.stream, k.idx, "load-verdict", in, impl, model)
+				}
 			}, "c05journal", Hex("main.knut"), vr.FS)
 		}
 		for vi, vr := range k.vars[1:] {
 			in := map[string]any{"journal": text, "args": strings.Join(k.f.Args(), " "), "variant": vi + 1, "order": vr.Order, "shape": vr.Shape, "layout": vr.Layout, "schedule_seed": vr.Seed}
 			if k.stream != "layout" {
 				in["kind"] = k.kind
-				in["variant_directives_in_order"] = c05Permuted(k.j, vr.Order)
+				in["variant_directives_in_order"] = c05Text(k.j, vr.Order, k.raw)
 			}
 			same := vr.Check == b0.Check && vr.PrC == b0.PrC && vr.BalC == b0.BalC && !strings.Contains(vr.ErrOut, "panic")
 			if !same || (b0.BalC == 0 && vr.BalC == 0 && vr.Bal != b0.Bal) || (b0.PrC == 0 && vr.PrC == 0 && c05CanonPrint(vr.Print) != c05CanonPrint(b0.Print)) {
@@ -482,7 +548,8 @@ func runC05(c *Ctx) {
 				c.Monitor(k.stream, k.idx, "print_same_up_to_block_order", in, c05CanonPrint(vr.Print) == c05CanonPrint(b0.Print), "original:\n"+b0.Print+"\nvariant:\n"+vr.Print)
 			}
 			// the model on the permuted directive list gives the same report as the real code on the variant
-			if vi < 2 || (k.stream == "prices" && vi < 5) {
+			// (not for a journal with a directive the structured form cannot express)
+			if (vi < 2 || (k.stream == "prices" && vi < 5)) && len(k.raw) == 0 {
 				pj := &Journal{}
 				for _, q := range vr.Order {
 					pj.Dirs = append(pj.Dirs, k.j.Dirs[q])
@@ -497,6 +564,14 @@ func runC05(c *Ctx) {
 					}
 					c.Compare(k.stream, k.idx, "balance-permuted", in, impl, modelOutcomeCanon(model))
 				}, "balance", k.f.Wire(today()), pj.Wire())
+			}
+		}
+		if k.stream == "reject" && len(k.sweep) > 0 {
+			s0 := k.sweep[0]
+			for si, sw := range k.sweep[1:] {
+				in := map[string]any{"journal": s0.Text, "kind": k.kind, "sweep": si + 1, "order": sw.Order, "variant_journal": sw.Text}
+				c.Monitor(k.stream, k.idx, "verdict_same_in_process", in, sw.Verdict == s0.Verdict && (sw.Verdict == "ok" || sw.Verdict == "error" || sw.Verdict == "load-error"),
+					fmt.Sprintf("journal.FromPath + check.Check in-process: original order %s (%s), this order %s (%s)", s0.Verdict, clip(s0.Msg), sw.Verdict, clip(sw.Msg)))
 			}
 		}
 		if k.stream != "order" {
@@ -539,6 +614,89 @@ func c05Files(fs string) map[string]string {
 		}
 	}
 	return res
+}
+
+// c05Item is directive idx of the journal as a layout item; raw[idx], when present, is the text written for it.
+func c05Item(j *Journal, idx int, raw map[int]string) layItem {
+	it := layDir(j.Dirs[idx])
+	if t, ok := raw[idx]; ok {
+		it.Text = strings.TrimSuffix(t, "\n")
+	}
+	return it
+}
+
+// c05Text is the text of the journal with its directives in the given order (nil: as they are), a blank line after each;
+// raw as in c05Item.
+func c05Text(j *Journal, order []int, raw map[int]string) string {
+	var b strings.Builder
+	put := func(q int) {
+		if t, ok := raw[q]; ok {
+			b.WriteString(t)
+		} else {
+			b.WriteString(j.Dirs[q].Text())
+		}
+		b.WriteString("\n")
+	}
+	if order == nil {
+		for q := range j.Dirs {
+			put(q)
+		}
+	}
+	for _, q := range order {
+		put(q)
+	}
+	return b.String()
+}
+
+// c05GenReject: a well-formed journal (lifecycle generator, no mutation: nothing for the checker to object to) in which ONE
+// directive is written so that the syntax parser accepts it and the conversion to the model (model.ParseDirective) rejects it
+// (c02Fault: a date that does not exist, an account whose first segment is no account type, a number in foreign digits, an
+// @accrue annotation with an impossible window, date or account). The directive is of any kind and stands anywhere among the
+// others. Such a journal is rejected by every command wherever the directive stands - first, last or in the middle of the
+// main file or of an included one: the verdict is a function of the SET of directives. One journal in eight is a control
+// without fault. Results: journal, fault kind, valuation commodity, index of the faulted directive (-1: none), its text.
+func c05GenReject(r *RNG) (*Journal, string, string, int, map[int]string, []string) {
+	o := JGenOpts{MaxAccounts: r.Range(2, 6), MaxDays: r.Range(1, 6), Unicode: true, BaseDay: 737000 + r.Intn(1500), SpanDays: Pick(r, []int{0, 3, 30, 200}), BoundaryDates: r.Chance(1, 6),
+		Accruals: r.Chance(1, 2)}
+	if r.Chance(1, 3) {
+		o.Prices, o.Valuation = true, "CHF"
+	}
+	j, tags := GenJournal(r, o)
+	n := len(j.Dirs)
+	if n == 0 || r.Chance(1, 8) {
+		return j, "none", o.Valuation, -1, nil, append(tags, "reject:none")
+	}
+	var cand []int
+	if r.Bool() {
+		for q, d := range j.Dirs {
+			if d.Kind == 't' && (d.Accrual != nil || !r.Chance(1, 3)) {
+				cand = append(cand, q)
+			}
+		}
+	}
+	if len(cand) == 0 {
+		for q := range j.Dirs {
+			cand = append(cand, q)
+		}
+	}
+	bad := Pick(r, cand)
+	switch r.Intn(5) { // the ends of the journal more often than chance has them
+	case 0:
+		bad = cand[0]
+	case 1:
+		bad = cand[len(cand)-1]
+	}
+	text, fault := c02Fault(r, j.Dirs[bad], false)
+	where := "mid"
+	switch {
+	case n == 1:
+		where = "only"
+	case bad == 0:
+		where = "first"
+	case bad == n-1:
+		where = "last"
+	}
+	return j, fault, o.Valuation, bad, map[int]string{bad: text}, append(tags, "reject:"+fault, fmt.Sprintf("reject-at:%c/%s", j.Dirs[bad].Kind, where))
 }
 
 // c05Sweep is one further order of a case's directives, written to a single file and judged in-process.
